@@ -22,6 +22,10 @@ TAIL_PROBES = [
     # variadic and zero-argument procedures, a builtin reached by a tail call
     ("(define (lv . xs) (if (= (car xs) 0) 'done (lv (- (car xs) 1) 7)))\n(lv 200000)", "OK Y " + "done".encode().hex()),
     ("(define (tb n) (if (> n 0) (tb (- n 1)) (+ n 5)))\n(tb 200000)", "OK I 5"),
+    # an immediately applied lambda (and let) in tail position: the operands are evaluated in the CALLER's environment
+    ("(define (f x) (let ((x 10) (y x)) (+ x y)))\n(f 1)", "OK I 11"),
+    ("(define (g x) ((lambda (x y) (+ x y)) 10 x))\n(g 1)", "OK I 11"),
+    ("(define (h a) ((lambda (a k) (k)) 5 (lambda () a)))\n(h 1)", "OK I 1"),
     # parameterless procedures (begin expands to a thunk call), tail sub-forms of the derived forms
     # (20000 iterations: a nesting depth of 1000 already overflows the native stack)
     ("(define n 20000)\n(define (t) (if (= n 0) 'done (begin (set! n (- n 1)) (t))))\n(t)", _DONE),
